@@ -456,4 +456,141 @@ theorem embedded_once_tree (draws : List Draw) (base : Nat) :
   simp
 
 
+
+
+mutual
+/-- The dpi ratios requested for the image named `n`, in drawing order. -/
+def ratiosOfList (n : String) : List Draw → List Rat
+  | [] => []
+  | d :: rest => ratiosOf n d ++ ratiosOfList n rest
+def ratiosOf (n : String) : Draw → List Rat
+  | .image id interp ratio _ => if imageName id interp = n then [ratio] else []
+  | .group body => ratiosOfList n body
+  | .pattern body => ratiosOfList n body
+end
+
+/-- `images[name]['dpi_ratios']` (empty when the name is not registered). -/
+def entryRatios (n : String) (imgs : List Entry) : List Rat :=
+  match findEntry n imgs with
+  | some e => e.ratios
+  | none => []
+
+theorem entryRatios_register (n : String) (imgs : List Entry) (id : String) (interp : Bool) (ratio : Rat) (alpha : Bool) :
+    entryRatios n (register imgs id interp ratio alpha) =
+      entryRatios n imgs ++ (if imageName id interp = n then [ratio] else []) := by
+  rw [register_eq]
+  unfold entryRatios
+  by_cases hany : imgs.any (·.name == imageName id interp) = true
+  · simp only [hany, if_true, findEntry_map_bump]
+    rcases hf : findEntry n imgs with _ | e
+    · have hne : ¬ imageName id interp = n := by
+        rintro rfl
+        obtain ⟨e, he⟩ := (any_iff_findEntry _ imgs).mp hany
+        rw [he] at hf; cases hf
+      simp [hne]
+    · have hn : e.name = n := by
+        clear hany
+        induction imgs with
+        | nil => simp [findEntry] at hf
+        | cons x rest ih =>
+          by_cases hx : x.name = n
+          · simp [findEntry, hx] at hf; subst hf; exact hx
+          · simp [findEntry, hx] at hf; exact ih hf
+      by_cases hnn : imageName id interp = n
+      · simp [bump, hn, hnn]
+      · have : ¬ e.name = imageName id interp := by rw [hn]; exact fun h => hnn h.symm
+        simp [bump, this, hnn]
+  · have hf : imgs.any (·.name == imageName id interp) = false := by simpa using hany
+    have hnone : findEntry (imageName id interp) imgs = none := by
+      rcases h : findEntry (imageName id interp) imgs with _ | e
+      · rfl
+      · exact absurd ((any_iff_findEntry _ imgs).mpr ⟨e, h⟩) hany
+    simp only [hf, Bool.false_eq_true, if_false, findEntry_append]
+    by_cases hnn : imageName id interp = n
+    · subst hnn; simp [hnone, findEntry]
+    · rcases hfe : findEntry n imgs with _ | e <;> simp [hfe, findEntry, hnn]
+
+mutual
+theorem entryRatios_registerAll : ∀ (n : String) (ds : List Draw) (imgs : List Entry),
+    entryRatios n (registerAll ds imgs) = entryRatios n imgs ++ ratiosOfList n ds
+  | n, [], imgs => by simp [registerAll, ratiosOfList]
+  | n, d :: rest, imgs => by
+    simp only [registerAll, ratiosOfList]
+    rw [entryRatios_registerAll n rest, entryRatios_registerOne n d imgs, List.append_assoc]
+theorem entryRatios_registerOne : ∀ (n : String) (d : Draw) (imgs : List Entry),
+    entryRatios n (registerOne d imgs) = entryRatios n imgs ++ ratiosOf n d
+  | n, .image id interp ratio alpha, imgs => by
+    simp only [registerOne, ratiosOf]; exact entryRatios_register n imgs id interp ratio alpha
+  | n, .group body, imgs => by simp only [registerOne, ratiosOf]; exact entryRatios_registerAll n body imgs
+  | n, .pattern body, imgs => by simp only [registerOne, ratiosOf]; exact entryRatios_registerAll n body imgs
+end
+
+
+/-- Every image XObject was asked for with the largest dpi ratio registered for its name. -/
+def RatiosOk (imgs : List Entry) (objs : List Obj) : Prop :=
+  ∀ n b r, Obj.image n b r ∈ objs → ∃ r0 rs, entryRatios n imgs = r0 :: rs ∧ r = maxOf r0 rs
+
+theorem step_ratios (imgs : List Entry) (st st1 : St) (ev : Ev) (h : step imgs st ev = some st1)
+    (hok : RatiosOk imgs st.objs) : RatiosOk imgs st1.objs := by
+  cases ev with
+  | image name =>
+    rcases hl : lookup name st.made with _ | n
+    · simp only [step, hl] at h
+      rcases he : findEntry name imgs with _ | e
+      · simp [he] at h
+      · simp only [he] at h
+        rcases hr : e.ratios with _ | ⟨r, rs⟩
+        · simp [hr] at h
+        · simp only [hr] at h
+          have hnew : ∀ n' b' r', Obj.image n' b' r' ∈ st.objs ++ [Obj.image name e.interpolate (maxOf r rs)] →
+              ∃ r0 rs', entryRatios n' imgs = r0 :: rs' ∧ r' = maxOf r0 rs' := by
+            intro n' b' r' hmem
+            rcases List.mem_append.mp hmem with hm | hm
+            · exact hok n' b' r' hm
+            · simp at hm; obtain ⟨rfl, rfl, rfl⟩ := hm
+              exact ⟨r, rs, by simp [entryRatios, he, hr], rfl⟩
+          by_cases ha : e.alpha
+          · simp [ha] at h; subst h
+            intro n' b' r' hmem
+            simp only [List.append_assoc] at hmem
+            rcases List.mem_append.mp hmem with hm | hm
+            · exact hnew n' b' r' (List.mem_append_left _ hm)
+            · simp at hm
+              obtain ⟨rfl, rfl, rfl⟩ := hm
+              exact hnew _ e.interpolate _ (List.mem_append_right _ (List.mem_singleton.mpr rfl))
+          · simp [ha] at h; subst h
+            exact hnew
+    · simp [step, hl] at h; subst h; exact hok
+  | openGroup key =>
+    simp [step] at h; subst h
+    intro n b r hmem; simp at hmem; exact hok n b r hmem
+  | openPattern key =>
+    simp [step] at h; subst h
+    intro n b r hmem; simp at hmem; exact hok n b r hmem
+  | close =>
+    simp [step] at h; subst h
+    intro n b r hmem; simp at hmem; exact hok n b r hmem
+
+theorem run_ratios (imgs : List Entry) (evs : List Ev) (st st' : St) (h : run imgs evs st = some st')
+    (hok : RatiosOk imgs st.objs) : RatiosOk imgs st'.objs := by
+  induction evs generalizing st with
+  | nil => simp [run] at h; subst h; exact hok
+  | cons ev rest ih =>
+    simp only [run] at h
+    rcases hs : step imgs st ev with _ | st1
+    · simp [hs] at h
+    · simp only [hs] at h
+      exact ih st1 h (step_ratios imgs st st1 ev hs hok)
+
+/-- `get_x_object` is called with the maximum of all the dpi ratios requested for that image, anywhere in
+the document. -/
+theorem embedded_max_ratio_tree (draws : List Draw) (base : Nat) (st : St)
+    (h : document draws base = some st) (n : String) (b : Bool) (r : Rat) (hmem : Obj.image n b r ∈ st.objs) :
+    ∃ r0 rs, ratiosOfList n draws = r0 :: rs ∧ r = maxOf r0 rs := by
+  unfold document at h
+  have := run_ratios _ _ _ st h (by intro _ _ _ hm; simp at hm) n b r hmem
+  rw [entryRatios_registerAll] at this
+  simpa [entryRatios, findEntry] using this
+
+
 end Wp.C13
